@@ -11,7 +11,12 @@ SRS = c01.SRS
 
 
 def check_case(case):
-    if case["fam"] == "phase":
+    if case["fam"] == "mux":
+        from ..muxsys import mux_spec
+        r = Res()
+        spec = mux_spec([tuple(x) for x in case["inputs"]], case["pal"], case["rs_list"], below="deep", pol=case["pol"])
+        phys.solve_and_check(r, spec, ("C02",), case["ta"])
+    elif case["fam"] == "phase":
         r = Res()
         spec = spec_from_forest(case["f"], case["pal"], case["pol"], case["srs"])
         spec = with_phases(spec, PH2, {case["who"]: case["pc"]})
@@ -49,6 +54,12 @@ def gen_cases(tier):
                 for c in spec["comps"]:
                     for pc in pc_options(c, PH2)[1:]:
                         yield dict(fam="phase", f=f, pal=pal, pol=1, srs=SRS, n=n, ta=-40.0, who=c["n"], pc=pc)
+        # multi-input PMux systems: the mux row's Vin / Power / Loss follow the SELECTED input (first input dead in many of them)
+        from ..muxsys import INPUT_OPTS
+        import itertools
+        for k in (2, 3):
+            for inputs in itertools.product(INPUT_OPTS if k == 2 or tier != "quick" else INPUT_OPTS[:4], repeat=k):
+                yield dict(fam="mux", inputs=[list(x) for x in inputs], pal=pal, rs_list=(k == 3), pol=1, srs=0.0, n=k, ta=25.0)
         for n1 in (1, 2):
             for f1 in mid.iter_forests(n1):
                 for f2 in mid.iter_forests(1):
